@@ -236,17 +236,7 @@ fn eval_filter_expr(
     };
 
     for predicate in filter.predicates() {
-        context.push_size(nodes.len());
-        let mut filtered = vec![];
-        for (position, n) in nodes.into_iter().enumerate() {
-            context.push_position(position + 1);
-            if eval_predicate(predicate, n.clone(), context)? {
-                filtered.push(n);
-            }
-            context.pop_position();
-        }
-        nodes = filtered;
-        context.pop_size();
+        nodes = filter_by_predicate(predicate, nodes, context)?;
     }
 
     Ok(nodes.as_value())
@@ -416,17 +406,7 @@ fn eval_axis_node_test(
     }
 
     for predicate in predicates {
-        context.push_size(nodes.len());
-        let mut filtered = vec![];
-        for (position, n) in nodes.into_iter().enumerate() {
-            context.push_position(position + 1);
-            if eval_predicate(predicate, n.clone(), context)? {
-                filtered.push(n);
-            }
-            context.pop_position();
-        }
-        nodes = filtered;
-        context.pop_size();
+        nodes = filter_by_predicate(predicate, nodes, context)?;
     }
 
     Ok(nodes)
@@ -463,6 +443,35 @@ fn eval_node_test(
                 || node.node_type() == dom::NodeType::EntityReference
                 || node.node_type() == dom::NodeType::CData),
         },
+    }
+}
+
+fn filter_by_predicate(
+    predicate: &expr::Expr,
+    nodes: Vec<dom::XmlNode>,
+    context: &mut model::Context,
+) -> error::Result<Vec<dom::XmlNode>> {
+    context.push_size(nodes.len());
+    let mut filtered = vec![];
+    let mut failed = None;
+    for (position, n) in nodes.into_iter().enumerate() {
+        context.push_position(position + 1);
+        let keep = eval_predicate(predicate, n.clone(), context);
+        context.pop_position();
+        match keep {
+            Ok(true) => filtered.push(n),
+            Ok(false) => {}
+            Err(e) => {
+                failed = Some(e);
+                break;
+            }
+        }
+    }
+    context.pop_size();
+
+    match failed {
+        Some(e) => Err(e),
+        _ => Ok(filtered),
     }
 }
 
